@@ -558,7 +558,8 @@ class PathAI:
             return False
         if r[0] == "g":
             if targets is not None and self.writers is not None:
-                return any(self.writers.may_write_global(t, r[1]) for t in targets)
+                gk = self.writers.gkey(self.fn.unit, r[1])
+                return any(self.writers.may_write_global(t, gk) for t in targets)
             return c[0] != "ext"
         # parameter-rooted or unknown memory: any callee that writes through unknown pointers or
         # through pointer arguments that may alias it
